@@ -840,6 +840,130 @@ def run_conserve(inp):
                      "max_tH": max([r.get("tH", 0.0) for r in spy.recs] or [0.0])}}
 
 
+
+# ----------------------------------------------------------------------------------------------- full step trace
+# (gauge moves included: np.linalg.qr, the contraction of the bond matrix into the neighbour, merge_mps_tensors) vs
+# Model/Conserve.lean (`singleSiteFull`, `twoSiteFull`, `ldtdvpFull`) — the lists whose centre walk the conservation
+# theorems of Props/C05 are about.
+class _LogList(list):
+    """state.tensors with every item assignment recorded"""
+
+    def __init__(self, items, log):
+        super().__init__(items)
+        self._log = log
+
+    def __setitem__(self, k, v):
+        self._log.append(("set", k))
+        super().__setitem__(k, v)
+
+
+class _Proxy:
+    def __init__(self, target, **over):
+        self.__dict__["_t"] = target
+        self.__dict__["_o"] = over
+
+    def __getattr__(self, n):
+        o = self.__dict__["_o"]
+        return o[n] if n in o else getattr(self.__dict__["_t"], n)
+
+
+def full_steps_text(events, tensors_ids):
+    out = []
+    n = len(events)
+    for k, e in enumerate(events):
+        if e[0] in ("site", "pair", "bond", "split", "trunc"):
+            out.append(ops_text([e]))
+        elif e[0] == "qr":
+            site = next((x[1] for x in events[k + 1:] if x[0] == "set"), "?")
+            direction = next((x[0] for x in events[k + 1:] if x[0] in ("absorbR", "absorbL")), "?")
+            out.append(("q" if direction == "absorbR" else "Q" if direction == "absorbL" else "?") + f":{site}")
+        elif e[0] == "absorbR":
+            out.append(f"a:{e[1] - 1 if isinstance(e[1], int) else '?'}")
+        elif e[0] == "absorbL":
+            out.append(f"A:{e[1]}")
+        elif e[0] == "mergeat":
+            out.append(f"m:{e[1]}")
+    return " ".join(out) if out else "none"
+
+
+def run_fulltrace(inp):
+    rng = random.Random(inp["sub"])
+    nprng = np.random.default_rng(inp["sub"])
+    fn = inp["fn"]
+    L = inp.get("L") or rng.choice([2, 2, 3, 3, 4, 5, 6, 7])
+    if fn in ("ldtdvp", "single") and inp.get("L") is None and rng.random() < 0.05:
+        L = 1
+    digital = bool(inp.get("digital", rng.random() < 0.25))
+    dmax = rng.choice([1, 2, 3, 4, 4, 6])
+    cap = inp.get("cap") or rng.choice([1, 2, 2, 3, 3, 4, 5, 8, 64])
+    thr = rng.choice([1e-12, 1e-9, 1e-6])
+    dt = rng.choice([0.05, 0.1, 0.13])
+    mps = random_mps(rng, nprng, L, dmax)
+    _, ham = random_hamiltonian(rng, L, "ising" if L == 1 else None)
+    if digital:
+        sp = StrongSimParams([Observable(Z(), 0)], num_traj=1, max_bond_dim=cap, min_bond_dim=rng.choice([1, 2]), threshold=thr,
+                             show_progress=False)
+        unit = lambda: 1.0  # noqa: E731
+    else:
+        sp = analog_params(dt, cap, thr, mn=rng.choice([1, 2]))
+        unit = lambda: sp.dt  # noqa: E731
+    dummy_right, dummy_left = mps.tensors[-1].shape[2], mps.tensors[0].shape[1]
+    tr = Tracer(ham, unit)
+    mps.tensors = _LogList(mps.tensors, tr.events)
+    real_qr, real_contract = np.linalg.qr, tdvp_mod.oe.contract
+
+    def qr_spy(a, *args, **kw):
+        tr.events.append(("qr",))
+        return real_qr(a, *args, **kw)
+
+    def contract_spy(*args, **kw):
+        if len(args) == 5 and isinstance(args[1], tuple):  # interleaved form: only the two absorb statements use it
+            which = "absorbR" if (tuple(args[1]), tuple(args[3])) == ((0, 3, 2), (1, 3)) else \
+                "absorbL" if (tuple(args[1]), tuple(args[3])) == ((0, 1, 3), (3, 2)) else "absorb?"
+            idx = next((k for k, t in enumerate(mps.tensors) if t is args[0]), "?")
+            tr.events.append((which, idx))
+        return real_contract(*args, **kw)
+
+    exc = None
+    saved_np, saved_oe = tdvp_mod.np, tdvp_mod.oe
+    try:
+        tr.install(tdvp_mod, TDVP_NAMES)
+        layered_merge = tdvp_mod.merge_mps_tensors
+
+        def merge_spy(a, b):
+            p = next((k for k, t in enumerate(mps.tensors) if t is a), "?")
+            tr.events.append(("mergeat", p))
+            return layered_merge(a, b)
+
+        tdvp_mod.merge_mps_tensors = merge_spy
+        tdvp_mod.np = _Proxy(np, linalg=_Proxy(np.linalg, qr=qr_spy))
+        tdvp_mod.oe = _Proxy(saved_oe, contract=contract_spy)
+        try:
+            {"ldtdvp": tdvp_mod.local_dynamic_tdvp, "single": tdvp_mod.single_site_tdvp, "two": tdvp_mod.two_site_tdvp}[fn](mps, ham, sp)
+        except Exception as e:  # noqa: BLE001
+            exc = type(e).__name__
+    finally:
+        tdvp_mod.np, tdvp_mod.oe = saved_np, saved_oe
+        tr.restore()
+    impl = "err" if exc else full_steps_text(tr.events, None)
+    d = 1 if digital else 0
+    if fn == "ldtdvp":
+        if L == 1:
+            req = f"fullldtdvp 1 {cap} {d} | 1 | 1"
+        else:
+            sd = seen_dims([e for e in tr.events if e[0] in ("site", "pair", "bond", "split", "merge", "trunc")], L,
+                           dummy_right, dummy_left, digital)
+            if sd is None:
+                req = f"fullldtdvp {L} {cap} {d} | {' '.join(['0'] * L)} | {' '.join(['0'] * L)}"
+                impl = impl + " unsegmentable"
+            else:
+                req = f"fullldtdvp {L} {cap} {d} | {' '.join(map(str, sd[0]))} | {'' if digital else ' '.join(map(str, sd[1]))}"
+    else:
+        req = f"full{fn} {L} {d}"
+    ngauge = sum(1 for e in tr.events if e[0] in ("qr", "absorbR", "absorbL", "mergeat"))
+    return {"req": req, "impl": impl, "oracle": None, "kind": "fulltrace-" + fn,
+            "sig": f"full:{fn}:{L}:{d}:{ngauge}:{cap if fn == 'ldtdvp' else ''}", "nontrivial": ngauge > 0}
+
 def gen(rng, tier):
     n_trace = {"quick": 300, "thorough": 3000, "search": 60}.get(tier, 300)
     n_dyn = {"quick": 40, "thorough": 400, "search": 60}.get(tier, 40)
@@ -864,6 +988,9 @@ def gen(rng, tier):
     for L in (2, 3, 4, 5):  # every small length with caps that bite everywhere / nowhere
         for cap in (1, 2, 64):
             yield {"kind": "trace", "fn": "ldtdvp", "L": L, "cap": cap, "digital": False, "sub": rng.randrange(1 << 30)}
+            yield {"kind": "fulltrace", "fn": "ldtdvp", "L": L, "cap": cap, "digital": False, "sub": rng.randrange(1 << 30)}
+    for k in range({"quick": 90, "thorough": 900, "search": 30}.get(tier, 90)):
+        yield {"kind": "fulltrace", "fn": ("ldtdvp", "single", "two", "ldtdvp")[k % 4], "sub": rng.randrange(1 << 30)}
     for k in range(n_trace):
         r = rng.random()
         fn = "ldtdvp" if r < 0.7 else "single" if r < 0.8 else "two" if r < 0.9 else "bug"
@@ -876,6 +1003,8 @@ def run(inp):
         return run_trace(inp)
     if inp["kind"] == "conserve":  # xe05
         return run_conserve(inp)
+    if inp["kind"] == "fulltrace":
+        return run_fulltrace(inp)
     if inp["kind"] not in ("dynamics", "budget"):
         raise ValueError(inp["kind"])
     try:
